@@ -208,11 +208,11 @@ func cases(c *engine.Ctx, emit func(k kase)) {
 			}
 		}
 		// malformed entries: prefix + every string of length 0..3 over {0,-,x}
-		alpha := []byte{'0', '-', 'x'}
+		alpha := []byte{'0', '1', '9', '-', 'x'}
 		var gen func(cur string, depth int)
 		gen = func(cur string, depth int) {
 			emit(kase{Kind: "malformed", Prefix: pfx, Entry: pfx + cur})
-			if depth == 3 {
+			if depth == 4 {
 				return
 			}
 			for _, a := range alpha {
@@ -220,6 +220,9 @@ func cases(c *engine.Ctx, emit func(k kase)) {
 			}
 		}
 		gen("", 0)
+		for _, e := range []string{"99-abc", "100-abc", "999999999999999999999-abc", "-1-abc", "01-", "1-"} {
+			emit(kase{Kind: "malformed", Prefix: pfx, Entry: pfx + e})
+		}
 		// entries that are a strict prefix of the library prefix
 		for i := 1; i < len(pfx); i += 5 {
 			emit(kase{Kind: "malformed", Prefix: pfx, Entry: pfx[:i]})
@@ -271,7 +274,7 @@ func init() {
 	engine.Register(&engine.CheckDef{
 		ID:    "C20",
 		Level: "exploration",
-		Rule: "thorough: every payload length 1..Lmax; quick: every length up to three chunks plus the three lengths around every chunk-count boundary up to Lmax (Lmax = largest length whose entries fit a ClientHello's ALPN list) for both request prefixes with position-coded content (thorough: also seed-random content), adversarial contents at chunk-boundary lengths, foreign names interleaved at every position for selected lengths, every malformed entry prefix+{0,-,x}^0..3; " +
+		Rule: "thorough: every payload length 1..Lmax; quick: every length up to three chunks plus the three lengths around every chunk-count boundary up to Lmax (Lmax = largest length whose entries fit a ClientHello's ALPN list) for both request prefixes with position-coded content (thorough: also seed-random content), adversarial contents at chunk-boundary lengths, foreign names interleaved at every position for selected lengths, every malformed entry prefix+{0,1,9,-,x}^0..4 (alone and next to a genuine chunk); " +
 			"distinct_nontrivial counts cases (all distinct by construction) other than single-chunk round trips",
 		Assumptions: []string{"payload content beyond the listed patterns is not enumerated (content is irrelevant to a length-driven splitter; adversarial contents cover the delimiter characters)"},
 		Shards:      func(c *engine.Ctx) int { return 16 },
